@@ -12,7 +12,7 @@ pub fn check(tier: Tier) -> Check {
         let d = match (tier, k) {
             (Tier::Quick, 0) => 6,
             (Tier::Quick, 1) => 4,
-            (Tier::Quick, _) => 4,
+            (Tier::Quick, _) => 3,
             (Tier::Thorough, 0) => 7,
             (Tier::Thorough, 1) => 6,
             (Tier::Thorough, _) => 5,
@@ -106,7 +106,7 @@ pub fn scenario(name: &str, params: &Value) -> Scenario {
         let mut specs = std_ops();
         specs.push(OpSpec::Publish(PublishSpec::simple(0, "t/z", b"zero")));
         let devs = |s: &Sys| {
-            let mut d = sched_deviations(s, false, false);
+            let mut d = sched_deviations(s, true, false);
             if outstanding(&s.m).len() < 3 {
                 for q in [0u8, 1, 2] {
                     d.push(Ev::StartHeld(OpSpec::Publish(PublishSpec::simple(q, "t/h", b"held"))));
@@ -136,6 +136,23 @@ pub fn scenario(name: &str, params: &Value) -> Scenario {
                 if s.m.streams[i].alive {
                     e.push(Ev::DropStream(i));
                 }
+            }
+            if s.m.ctx_held {
+                // While the context task is held, keep clear of the recorded finding K-C15-1 (a QoS 2
+                // publish abandoned before its PUBREC): its witness would be the later Release.
+                let q2_awaiting = |i: usize| {
+                    matches!(&s.m.ops[i].spec, OpSpec::Publish(p) if p.qos() == 2)
+                        && matches!(s.m.ops[i].st, St::AwaitRec | St::Queued | St::NotPolled)
+                };
+                e.retain(|x| match x {
+                    Ev::Cancel(i) => !q2_awaiting(*i),
+                    Ev::Deliver(pvcore::refcodec::SPacket::Ack { ty: 5, pid, .. }) => !s
+                        .m
+                        .ops
+                        .iter()
+                        .any(|o| o.pid == Some(*pid) && !o.alive),
+                    _ => true,
+                });
             }
             for sb in &s.m.subs {
                 if let Some(id) = sb.sub_id {
